@@ -130,5 +130,12 @@ def handle (j : Json) : Except String Json := do
         | some sd => some (Json.arr #[.num (JsonNumber.fromNat k.1), .num (JsonNumber.fromNat k.2),
                                       .arr ((canon db sd.items).map (fun n => Json.num (JsonNumber.fromNat n))).toArray, .bool sd.full, jOptNat sd.count])
       pure (Json.mkObj [("vals", .arr outVals.toArray), ("sets", .arr outSets.toArray)])
+  | "merge" =>
+      let rows ← natList (← j.getObjVal? "rows")
+      let p : Pending := ⟨← natList (← j.getObjVal? "items"), ← natList (← j.getObjVal? "added"), ← natList (← j.getObjVal? "removed")⟩
+      match mergeLinks rows p p.added with
+      | .ok l => pure (Json.mkObj [("ok", .arr (l.map (fun n => Json.num (JsonNumber.fromNat n))).toArray),
+                                   ("expected", .arr ((expectedItems rows p).map (fun n => Json.num (JsonNumber.fromNat n))).toArray)])
+      | .error ph => pure (Json.mkObj [("phantom", .num (JsonNumber.fromNat ph))])
   | _ => throw s!"unknown op {op}"
 end PonyVerif.Drive.C23
